@@ -201,6 +201,16 @@ def attacker_frames(clock, G, A, genuine, rng):
         d["content"][1]["signer"] = ("digest", G.ats[0].as_hashedid8())
         d["content"][1]["signature"] = A.ats[0].sign_message(A.backend, tbs)
         out.append((f"{lab}:genuine-digest-attacker-signature", g[:4] + SECURITY_CODER.encode_etsi_ts_103097_data_signed(d)))
+        # (6) message signed by the attacker's AA itself, certificate attached: its issuer is the attacker's ROOT (unknown)
+        d = copy.deepcopy(base)
+        d["content"][1]["signer"] = ("certificate", [A.aa.certificate])
+        d["content"][1]["signature"] = A.aa.sign_message(A.backend, tbs)
+        out.append((f"{lab}:attacker-aa-as-signer-names-attacker-root", g[:4] + SECURITY_CODER.encode_etsi_ts_103097_data_signed(d)))
+        # (7) digest signer that is the attacker root's own HashedId8
+        d = copy.deepcopy(base)
+        d["content"][1]["signer"] = ("digest", A.root.as_hashedid8())
+        d["content"][1]["signature"] = A.ats[0].sign_message(A.backend, tbs)
+        out.append((f"{lab}:attacker-root-digest-as-signer", g[:4] + SECURITY_CODER.encode_etsi_ts_103097_data_signed(d)))
         # (5) full 3-certificate chain of the attacker
         d = copy.deepcopy(base)
         d["content"][1]["signer"] = ("certificate", [A.ats[0].certificate, A.aa.certificate, A.root.certificate])
@@ -319,7 +329,11 @@ def run_shard(spec, res):
             if ins and rng.random() < 0.7:
                 for k_ in sorted(rng.sample(range(len(muts) // 2 + 1), min(len(ins), len(muts) // 2 + 1))):
                     muts.insert(k_, rng.choice(ins))
-                muts[0:0] = ins if rng.random() < 0.6 else []
+                if rng.random() < 0.6:
+                    # directed opening: frames that make the receiver 'miss' the attacker's root / AA (they name them as unknown
+                    # issuers or signers), then the authentic frames that carry exactly those certificates, then everything else
+                    primes = [m_ for m_ in muts if m_[0] in ("attacker:attacker-aa-as-signer-names-attacker-root", "attacker:attacker-root-digest-as-signer", "attacker:attacker-chain")]
+                    muts[0:0] = primes + ins + [m_ for m_ in ins if "attacker-aa" in m_[0]]
             # interleave genuine frames to keep the history mixed and to confirm the receiver still works
             for k, (mlab, frame) in enumerate(muts):
                 if k % 40 == 17:
